@@ -52,6 +52,7 @@ pub ghost struct SW {
     pub closed_in_child: Set<int>,         // descriptors closed by the child after fork
     pub launch: Option<u32>,               // prophecy: None = exec succeeded (status pipe closed by exec); Some(c) = the child reported c
     pub waits: nat,                        // blocking waits so far
+    pub want: ExecReq,                     // what the caller of create asked to run: program, argument vector, whether an environment is given (ghost, fixed by create's precondition)
     pub status_read_failed: bool,          // the parent's read of the launch-status pipe returned an error
 }
 pub tracked struct World { pub ghost s: SW, pub ghost img: ChildImg }
@@ -236,6 +237,9 @@ pub mod posix {
         pub fn call(self, Tracked(w): Tracked<&mut World>) -> (r: io::Result<()>)
             requires step_pre(*old(w)),
                 old(w).img.sig_clean,   // C18: the program starts with an empty signal mask and default SIGPIPE //[C18]
+                // C06: what is executed is the requested program with the whole requested argument vector (argv[0] included), and an
+                // environment vector exactly when one was given
+                self.req@.cmd == old(w).s.want.cmd && self.req@.argv == old(w).s.want.argv && self.req@.env.is_some() == old(w).s.want.env.is_some(), //[C06]
             ensures
                 r is Err,                 // returning at all means that exec failed (unit `exec`: PrepExec::exec ensures Err)
                 final(w).s == old(w).s && final(w).img == (ChildImg { failed: Some(errcode(r->Err_0)), exec_tried: Some(self.req@), ..old(w).img }),
